@@ -39,6 +39,12 @@ def cases(tier, rng):
     for order in (0, 1):
         line = "c05two %d" % order
         cs.append({"line": line, "key": line, "model": False, "tags": {"carrier": "two-upstreams", "order": order}})
+    # a UDP endpoint with a shared secret AND a certificate: the secret does not make the carrier count as encrypted - the server offers
+    # StartTLS and the session is upgraded (with and without the client requiring security)
+    for must in (0, 1):
+        for sec in ("abc", "none"):
+            line = "c05s %s %s good %d" % (sec, sec, must)
+            cs.append({"line": line, "key": line, "model": False, "tags": {"carrier": "udp-secret+cert", "ssecret": sec, "csecret": sec, "must": must}})
     # a UDP endpoint protected by a shared secret: equal and different secrets, one side without
     secrets = ["none", "abc", "abd", "ABC", "ab", "abcd", "p%40ss%3Aword", "x" * 40]
     if tier == "thorough":
@@ -63,6 +69,12 @@ def oracle(case, impl):
         if p != ["A", "ok", "B", "err"]:
             return [("host-name-not-per-upstream", "the certificate names localhost only: tcp+tls://localhost must be accepted and tcp+tls://127.0.0.1 refused, in "
                      "either order with one configuration object; got " + impl)]
+        return []
+    if t["carrier"] == "udp-secret+cert":
+        if p[:2] != ["connect", "ok"]:
+            return [("good-peer-refused;carrier=udp-secret+cert", "a StartTLS-capable UDP endpoint with a matching secret was not reached: %s -> %s" % (case["line"], impl))]
+        if "tech" in p and p[p.index("tech") + 1] != "tls":
+            return [("offered-starttls-not-upgraded;carrier=udp", "the server offered StartTLS on a carrier that only has the shared-secret cipher; the client reports '%s' protection instead of TLS: %s" % (p[p.index("tech") + 1], case["line"]))]
         return []
     if t["carrier"] == "udp-secret":
         same = t["ssecret"] == t["csecret"]
